@@ -5,6 +5,7 @@ go 1.23.7
 toolchain go1.24.1
 
 require (
+	github.com/bmatcuk/doublestar/v4 v4.8.1
 	github.com/go-jose/go-jose/v4 v4.0.5
 	github.com/gorilla/securecookie v1.1.2
 	github.com/zitadel/oidc/v3 v3.0.0
@@ -12,7 +13,6 @@ require (
 )
 
 require (
-	github.com/bmatcuk/doublestar/v4 v4.8.1 // indirect
 	github.com/go-chi/chi/v5 v5.2.1 // indirect
 	github.com/go-logr/logr v1.4.2 // indirect
 	github.com/go-logr/stdr v1.2.2 // indirect
